@@ -108,23 +108,25 @@ Theorem h_it_run_ok lru_order rs : forall h q l1 mid l2 it,
     h_it_run h it lru_order rs = HOk (h', it', fst (fst (it_run lru_order rs (entries mid))), ads) /\
     wf h' q l' /\ addrs l' = addrs (l1 ++ mid ++ l2) /\ NoDup ads /\ (forall a, In a ads -> In a (addrs mid)) /\
     fresh h' = fresh h /\ (forall x, ~ In x (addrs mid) -> cells h' x = cells h x) /\
-    entries l' = apply_writes (snd (it_run lru_order rs (entries mid))) (entries (l1 ++ mid ++ l2)).
+    entries l' = apply_writes (snd (it_run lru_order rs (entries mid))) (entries (l1 ++ mid ++ l2)) /\
+    exists l1' mid' l2', l' = l1' ++ mid' ++ l2' /\ itinv q l1' mid' l2' it' /\
+                         entries mid' = snd (fst (it_run lru_order rs (entries mid))).
 Proof.
   induction rs as [|[d w] rs IH]; intros h q l1 mid l2 it Hwf Hinv.
   - cbn. exists h, it, [], (l1 ++ mid ++ l2).
-    split; [reflexivity|]. split; [exact Hwf|]. split; [reflexivity|]. split; [constructor|]. split; [intros a []|]. split; [reflexivity|]. split; reflexivity.
+    split; [reflexivity|]. split; [exact Hwf|]. split; [reflexivity|]. split; [constructor|]. split; [intros a []|]. split; [reflexivity|]. split; [reflexivity|]. split; [reflexivity|]. exists l1, mid, l2. auto.
   - cbn [h_it_run it_run]. unfold it_next.
     destruct (from_head lru_order d) eqn:Efh.
     + destruct mid as [|[a [k v]] mid'].
       * (* exhausted *)
         pose proof Hinv as (Hlen & _). unfold h_it_take. rewrite Hlen. cbn [length Nat.eqb hbind entries map].
-        destruct (IH h q l1 [] l2 it Hwf Hinv) as (h' & it' & ads & l' & -> & Hwf' & Ead & Hnd & Hin & Hfresh & Hframe & Hwr).
-        change (entries []) with (@nil entry) in Hwr.
+        destruct (IH h q l1 [] l2 it Hwf Hinv) as (h' & it' & ads & l' & -> & Hwf' & Ead & Hnd & Hin & Hfresh & Hframe & Hwr & Hdec).
+        change (entries []) with (@nil entry) in Hwr, Hdec.
         cbn [hbind entries map]. destruct (it_run lru_order rs []) as [[ys remf] wrs]. cbn [fst snd option_map] in *.
         exists h', it', ads, l'. rewrite Hlen. split; [reflexivity|]. cbn [app] in *. auto 12.
       * destruct (h_it_take_front h q l1 a k v mid' l2 it w Hwf Hinv) as (h1 & it1 & -> & Hwf1 & Hinv1 & Hn1 & Hn2 & Hf1 & Hfr1).
         cbn [hbind entries map snd].
-        destruct (IH h1 q _ mid' l2 it1 Hwf1 Hinv1) as (h' & it' & ads & l' & -> & Hwf' & Ead & Hnd & Hin & Hfresh & Hframe & Hwr).
+        destruct (IH h1 q _ mid' l2 it1 Hwf1 Hinv1) as (h' & it' & ads & l' & -> & Hwf' & Ead & Hnd & Hin & Hfresh & Hframe & Hwr & Hdec).
         cbn [hbind]. fold (entries mid'). destruct (it_run lru_order rs (entries mid')) as [[ys remf] wrs]. cbn [fst snd option_map].
         destruct Hinv1 as (Hl1 & _). rewrite Hl1. unfold entries. rewrite map_length.
         exists h', it', (a :: ads), l'. split; [reflexivity|]. split; [exact Hwf'|]. split.
@@ -133,18 +135,19 @@ Proof.
            ++ constructor; [|exact Hnd]. intros Hc. apply Hn1. rewrite addrs_app. apply in_or_app. left. now apply Hin.
            ++ split; [intros x [<-|Hx]; [now left|right; now apply Hin]|]. split; [congruence|].
               split; [intros x Hx; cbn [addrs map fst In] in Hx; rewrite Hframe by tauto; apply Hfr1; intros ->; tauto|].
+              split; [|cbn [fst snd] in Hdec |- *; exact Hdec].
               fold (entries l'). fold (entries (l1 ++ ((a, (k, v)) :: mid') ++ l2)). cbn [snd] in Hwr.
               rewrite Hwr, apply_writes_app. f_equal. rewrite <- app_assoc. cbn [app].
               symmetry. apply write_entries. apply Hwf.
     + destruct (rev_ind_split mid) as [->|(mid' & [a [k v]] & ->)].
       * pose proof Hinv as (Hlen & _). unfold h_it_take. rewrite Hlen. cbn [length Nat.eqb hbind entries map split_last].
-        destruct (IH h q l1 [] l2 it Hwf Hinv) as (h' & it' & ads & l' & -> & Hwf' & Ead & Hnd & Hin & Hfresh & Hframe & Hwr).
-        change (entries []) with (@nil entry) in Hwr.
+        destruct (IH h q l1 [] l2 it Hwf Hinv) as (h' & it' & ads & l' & -> & Hwf' & Ead & Hnd & Hin & Hfresh & Hframe & Hwr & Hdec).
+        change (entries []) with (@nil entry) in Hwr, Hdec.
         cbn [hbind entries map]. destruct (it_run lru_order rs []) as [[ys remf] wrs]. cbn [fst snd option_map] in *.
         exists h', it', ads, l'. rewrite Hlen. split; [reflexivity|]. cbn [app] in *. auto 12.
       * destruct (h_it_take_back h q l1 mid' a k v l2 it w Hwf Hinv) as (h1 & it1 & -> & Hwf1 & Hinv1 & Hn1 & Hn2 & Hf1 & Hfr1).
         cbn [hbind]. rewrite entries_app. cbn [entries map snd]. rewrite split_last_snoc.
-        destruct (IH h1 q l1 mid' _ it1 Hwf1 Hinv1) as (h' & it' & ads & l' & -> & Hwf' & Ead & Hnd & Hin & Hfresh & Hframe & Hwr).
+        destruct (IH h1 q l1 mid' _ it1 Hwf1 Hinv1) as (h' & it' & ads & l' & -> & Hwf' & Ead & Hnd & Hin & Hfresh & Hframe & Hwr & Hdec).
         cbn [hbind]. fold (entries mid'). destruct (it_run lru_order rs (entries mid')) as [[ys remf] wrs]. cbn [fst snd option_map].
         destruct Hinv1 as (Hl1 & _). rewrite Hl1. unfold entries. rewrite map_length.
         exists h', it', (a :: ads), l'. split; [reflexivity|]. split; [exact Hwf'|]. split.
@@ -155,6 +158,7 @@ Proof.
               split; [congruence|].
               split; [intros x Hx; rewrite addrs_app, in_app_iff in Hx; cbn [addrs map fst In] in Hx;
                       rewrite Hframe by tauto; apply Hfr1; intros ->; tauto|].
+              split; [|cbn [fst snd] in Hdec |- *; exact Hdec].
               fold (entries l'). fold (entries (l1 ++ (mid' ++ [(a, (k, v))]) ++ l2)). cbn [snd] in Hwr.
               rewrite Hwr, apply_writes_app. f_equal.
               assert (Ea : forall e, l1 ++ (mid' ++ [(a, e)]) ++ l2 = (l1 ++ mid') ++ (a, e) :: l2)
@@ -177,7 +181,7 @@ Theorem h_iter_safe h q l lru_order rs :
 Proof.
   intros Hwf. destruct (h_iter_ok h q l Hwf) as (it & E & Hinv).
   assert (Hwf0 : wf h q ([] ++ l ++ [])) by (cbn; now rewrite app_nil_r).
-  destruct (h_it_run_ok lru_order rs h q [] l [] it Hwf0 Hinv) as (h' & it' & ads & l' & Er & Hwf' & Ead & Hnd & Hin & Hfr & Hframe & Hwr).
+  destruct (h_it_run_ok lru_order rs h q [] l [] it Hwf0 Hinv) as (h' & it' & ads & l' & Er & Hwf' & Ead & Hnd & Hin & Hfr & Hframe & Hwr & _).
   exists it, h', it', ads, l'. cbn [app] in Ead, Hwr. rewrite app_nil_r in Ead, Hwr. auto 14.
 Qed.
 
@@ -202,4 +206,96 @@ Proof.
     exists p, x. rewrite Hframe; [exact Hc|].
     eapply fam_fl_outside in Hin'; [|exact Hf]. intros Hc'. apply Hin'. right. right. exact Hc'.
   - intros x Hx. apply Hframe. intros Hc. apply Hx. right. right. apply in_or_app. now left.
+Qed.
+
+(** ** the whole iterator script (fresh iterator, clone, both continue) on one list of a family *)
+Lemma it_run_ro lru_order (rs : list req) rem : snd (it_run lru_order (map it_ro rs) rem) = [].
+Proof.
+  revert rem. induction rs as [|[d w] rs IH]; intros rem; [reflexivity|].
+  cbn [map it_ro fst it_run]. destruct (it_next lru_order d rem) as [y rem'].
+  specialize (IH rem'). destruct (it_run lru_order (map it_ro rs) rem') as [[ys remf] wrs].
+  cbn [snd] in *. rewrite IH. now destruct y as [[? ?]|].
+Qed.
+
+Lemma it_strip_ro kd rs : ik_mut kd = false -> map (it_strip kd) rs = map it_ro rs.
+Proof. intros E. apply map_ext. intros r. unfold it_strip. now rewrite E. Qed.
+
+Lemma same_list (l l' : list (addr * entry)) : addrs l' = addrs l -> entries l' = entries l -> l' = l.
+Proof.
+  revert l'. induction l as [|[a e] t IH]; intros [|[a' e'] t']; cbn; try discriminate; [reflexivity|].
+  intros Ha He. inversion Ha; inversion He; subst. f_equal. now apply IH.
+Qed.
+
+Lemma iter_script_eq kd pre pa pb (l : list entry) :
+  let R0 := it_run (ik_lru kd) (map (it_strip kd) pre) l in
+  let Ra := it_run (ik_lru kd) (map (it_strip kd) pa) (snd (fst R0)) in
+  let Rb := it_run (ik_lru kd) (map it_ro pb) (snd (fst R0)) in
+  iter_script kd pre pa pb l = (fst (fst R0), fst (fst Ra), fst (fst Rb), apply_writes (snd R0 ++ snd Ra) l).
+Proof.
+  cbn zeta. unfold iter_script.
+  assert (Es : (if ik_mut kd then fun r : req => r else fun r : req => (fst r, None)) = it_strip kd).
+  { unfold it_strip. destruct (ik_mut kd); reflexivity. }
+  rewrite Es. unfold it_ro.
+  destruct (it_run (ik_lru kd) (map (it_strip kd) pre) l) as [[y0 rem0] w0]. cbn [fst snd].
+  destruct (it_run (ik_lru kd) (map (it_strip kd) pa) rem0) as [[ya rema] wa]. cbn [fst snd].
+  match goal with |- context [match ?t with pair _ _ => _ end] =>
+    change (it_run (ik_lru kd) (map (fun r : req => (fst r, None)) pb) rem0) with t; destruct t as [[yb remb] wb] end.
+  reflexivity.
+Qed.
+
+Theorem fam_iter_script h F1 q l F2 fl kd pre pa pb :
+  fam h (F1 ++ (q, l) :: F2) fl -> (ik_mut kd = true -> pb = []) ->
+  exists h' l',
+    h_iter_script h q kd pre pa pb = HOk (h', fst (iter_script kd pre pa pb (entries l))) /\
+    fam h' (F1 ++ (q, l') :: F2) fl /\ entries l' = snd (iter_script kd pre pa pb (entries l)) /\
+    addrs l' = addrs l /\ (forall x, ~ In x (addrs l) -> cells h' x = cells h x).
+Proof.
+  intros Hf Hmut. pose proof (fam_member _ _ _ _ _ _ Hf) as Hwf.
+  rewrite iter_script_eq. cbn zeta. cbn [fst snd].
+  unfold h_iter_script.
+  destruct (h_iter_ok h q l Hwf) as (it0 & -> & Hinv0). cbn [hbind].
+  assert (Hwf0 : wf h q ([] ++ l ++ [])) by (cbn; now rewrite app_nil_r).
+  destruct (h_it_run_ok (ik_lru kd) (map (it_strip kd) pre) h q [] l [] it0 Hwf0 Hinv0)
+    as (h1 & it1 & a0 & l1st & -> & Hwf1 & Ead1 & _ & _ & Hfr1 & Hframe1 & Hwr1 & (L1 & M1 & L2 & -> & Hinv1 & Erem)).
+  cbn [hbind app] in *. rewrite app_nil_r in *.
+  set (R0 := it_run (ik_lru kd) (map (it_strip kd) pre) (entries l)) in *.
+  destruct (h_it_run_ok (ik_lru kd) (map (it_strip kd) pa) h1 q L1 M1 L2 it1 Hwf1 Hinv1)
+    as (h2 & it2 & aa & l2nd & -> & Hwf2 & Ead2 & _ & _ & Hfr2 & Hframe2 & Hwr2 & _).
+  cbn [hbind]. rewrite Erem in *.
+  set (Ra := it_run (ik_lru kd) (map (it_strip kd) pa) (snd (fst R0))) in *.
+  assert (HM1 : forall x, In x (addrs M1) -> In x (addrs l)).
+  { intros x Hx. rewrite <- Ead1, !addrs_app. apply in_or_app. right. apply in_or_app. now left. }
+  assert (Hent2 : entries l2nd = apply_writes (snd R0 ++ snd Ra) (entries l)).
+  { rewrite Hwr2, Hwr1. symmetry. apply apply_writes_app. }
+  assert (Hfin : forall h3 l3rd, wf h3 q l3rd -> addrs l3rd = addrs l -> entries l3rd = entries l2nd ->
+            fresh h3 = fresh h -> (forall x, ~ In x (addrs l) -> cells h3 x = cells h x) ->
+            fam h3 (F1 ++ (q, l3rd) :: F2) fl).
+  { intros h3 l3rd Hw3 Ea3 _ Hf3 Hfr3.
+    eapply fam_update_perm; try eassumption; try reflexivity.
+    - rewrite Ea3. apply Permutation_refl.
+    - intros a k v Hin'. destruct (fam_fl _ _ _ Hf a k v Hin') as (_ & p & x & Hc).
+      exists p, x. rewrite Hfr3; [exact Hc|].
+      eapply fam_fl_outside in Hin'; [|exact Hf]. intros Hc'. apply Hin'. right. right. exact Hc'.
+    - intros x Hx. apply Hfr3. intros Hc. apply Hx. right. right. apply in_or_app. now left. }
+  destruct (ik_mut kd) eqn:Emut.
+  - (* a mutable iterator cannot be cloned: the clone's script is empty *)
+    rewrite (Hmut eq_refl). cbn [map h_it_run hbind it_run fst].
+    exists h2, l2nd. split; [reflexivity|]. split; [|split; [exact Hent2|split; [congruence|]]].
+    + apply Hfin; [exact Hwf2|congruence|reflexivity|congruence|]. intros x Hx. rewrite Hframe2, Hframe1; auto.
+    + intros x Hx. rewrite Hframe2, Hframe1; auto.
+  - (* no writes: the clone walks the unchanged list *)
+    assert (Ew0 : snd R0 = []) by (unfold R0; rewrite (it_strip_ro kd pre Emut); apply it_run_ro).
+    assert (Ewa : snd Ra = []) by (unfold Ra; rewrite (it_strip_ro kd pa Emut); apply it_run_ro).
+    assert (El2 : l2nd = L1 ++ M1 ++ L2).
+    { apply same_list; [exact Ead2|]. rewrite Hwr2, Ewa. reflexivity. }
+    rewrite El2 in Hwf2.
+    destruct (h_it_run_ok (ik_lru kd) (map it_ro pb) h2 q L1 M1 L2 it1 Hwf2 Hinv1)
+      as (h3 & it3 & ab & l3rd & -> & Hwf3 & Ead3 & _ & _ & Hfr3 & Hframe3 & Hwr3 & _).
+    cbn [hbind]. rewrite Erem in *.
+    exists h3, l3rd. split; [reflexivity|].
+    assert (He3 : entries l3rd = entries l2nd).
+    { rewrite Hwr3, it_run_ro, El2. reflexivity. }
+    assert (Hfr : forall x, ~ In x (addrs l) -> cells h3 x = cells h x).
+    { intros x Hx. rewrite Hframe3, Hframe2, Hframe1; auto. }
+    split; [apply Hfin; [exact Hwf3|congruence|exact He3|congruence|exact Hfr]|]. split; [congruence|]. split; [congruence|exact Hfr].
 Qed.
